@@ -10,6 +10,8 @@ import (
 	"fmt"
 	"math/big"
 	"os"
+	"os/exec"
+	"time"
 	"path/filepath"
 	"runtime/debug"
 	"strings"
@@ -1024,3 +1026,125 @@ func c05Seeds() (cborSeeds, coseSeeds, jsonSeeds [][]byte) {
 func FuzzC05_CBOR(f *testing.F) { s, _, _ := c05Seeds(); fuzzFamily(f, cborFamilies, s) }
 func FuzzC05_COSE(f *testing.F) { _, s, _ := c05Seeds(); fuzzFamily(f, coseFamilies, s) }
 func FuzzC05_JSON(f *testing.F) { _, _, s := c05Seeds(); fuzzFamily(f, jsonFamilies, s) }
+
+// ---- cold start: the first decodes of a process, made by several goroutines at once ----
+
+// c05ColdWorker is a FRESH process whose very first use of the library is 16
+// goroutines decoding (and using the results of) ordinary documents through
+// every entry point at the same time: whatever the library builds lazily on
+// first use (per-type tables, caches) is built under contention. A recovered
+// panic is printed; an unrecoverable runtime error kills the process.
+func c05ColdWorker() int {
+	var shift int
+	fmt.Sscanf(os.Getenv("VERIF_C05_SHIFT"), "%d", &shift)
+	type job struct {
+		fam string
+		doc []byte
+	}
+	var jobs []job
+	for _, p := range []Prof{P1, P2} {
+		tok := baseValid(p, 1).WireBytes()
+		js := []byte(modelJN(baseValid(p, 1)).String())
+		jobs = append(jobs, job{"cbor", tok}, job{"enc-cbor", tok}, job{"cose", icbor.Encode(c05Envelope(tok))}, job{"json", js}, job{"enc-json", js})
+	}
+	const G = 16
+	var wg sync.WaitGroup
+	start := make(chan struct{})
+	msgs := make([]string, G)
+	for g := 0; g < G; g++ {
+		wg.Add(1)
+		go func(g int) {
+			defer wg.Done()
+			<-start
+			for i := range jobs {
+				j := jobs[(i+g+shift)%len(jobs)]
+				eps := entriesOf(j.fam)
+				for k := range eps {
+					e := eps[(k+g*3+shift)%len(eps)]
+					if _, _, pm := runEntryNoPanic(e, j.doc, true); pm != "" && msgs[g] == "" {
+						msgs[g] = pm
+					}
+				}
+			}
+		}(g)
+	}
+	close(start)
+	wg.Wait()
+	for _, m := range msgs {
+		if m != "" {
+			fmt.Println("COLD-PANIC: " + strings.ReplaceAll(m, "\n", " | "))
+			return 1
+		}
+	}
+	fmt.Println("COLD-OK")
+	return 0
+}
+
+type c05ColdIn struct {
+	Shift int `json:"shift"`
+	Runs  int `json:"runs"`
+}
+
+func c05ColdRun(shift int) (violation, infra string) {
+	cmd := exec.Command(os.Args[0])
+	cmd.Env = append(os.Environ(), "VERIF_WORKER=c05cold", fmt.Sprintf("VERIF_C05_SHIFT=%d", shift), "GOMAXPROCS=16")
+	done := make(chan struct{})
+	var out []byte
+	var err error
+	go func() { out, err = cmd.CombinedOutput(); close(done) }()
+	select {
+	case <-done:
+	case <-time.After(120 * time.Second):
+		if cmd.Process != nil {
+			_ = cmd.Process.Kill()
+		}
+		<-done
+		return "", "cold-start worker did not finish within 120 s"
+	}
+	txt := string(out)
+	switch {
+	case strings.Contains(txt, "COLD-OK") && err == nil:
+		return "", ""
+	case strings.Contains(txt, "COLD-PANIC: "):
+		i := strings.Index(txt, "COLD-PANIC: ")
+		return "the first decodes of a fresh process, made by 16 goroutines at once with ordinary valid documents: " + truncate(txt[i+len("COLD-PANIC: "):], 900), ""
+	case strings.Contains(txt, "fatal error:") || strings.Contains(txt, "panic:"):
+		i := strings.Index(txt, "fatal error:")
+		if i < 0 {
+			i = strings.Index(txt, "panic:")
+		}
+		return "the first decodes of a fresh process, made by 16 goroutines at once with ordinary valid documents, kill the process: " + truncate(firstLines(txt[i:], 12), 900), ""
+	}
+	return "", "cold-start worker ended unexpectedly: " + truncate(txt, 400)
+}
+
+var c05ColdKind = registerKind("c05cold", func(in c05ColdIn) string {
+	for r := 0; r < in.Runs; r++ {
+		if v, _ := c05ColdRun(in.Shift); v != "" {
+			return v
+		}
+	}
+	return ""
+})
+
+func TestC05_ColdStart(t *testing.T) {
+	st := NewStats("C05", "TestC05_ColdStart", "fresh processes (quick 8 per shard, thorough 60) whose FIRST use of the library is 16 goroutines decoding - and using the results of - ordinary valid documents of both profiles (claims CBOR, claims JSON, signed token) through every entry point at once, each goroutine in another order: whatever the library builds lazily on first use is built under contention. Violation: a panic in any goroutine, or the process dying with an unrecoverable runtime error (concurrent map writes ...). A sampled schedule: a clean run shows nothing for other interleavings. Non-trivial = every run; distinct = rotation of the job order")
+	defer st.Flush(t)
+	n := 8
+	if thorough() {
+		n = 60
+	}
+	shard, shards := shardInfo()
+	for r := 0; r < n; r++ {
+		shift := r*shards + shard
+		v, infra := c05ColdRun(shift)
+		if infra != "" {
+			fmt.Printf("VERIF-INFRA: C05 %s\n", infra)
+			t.Fatalf("VERIF-INFRA: %s", infra)
+		}
+		st.Case(fmt.Sprintf("cold|%d", shift), "cold-start")
+		if v != "" {
+			reportCase(t, "C05", "c05cold", c05ColdIn{Shift: shift, Runs: 20}, v)
+		}
+	}
+}
